@@ -51,11 +51,17 @@ func litFact(l *ast.BasicLit) (string, bool) {
 		if err != nil {
 			return "i:?" + l.Value, true
 		}
+		if v == 0 || v == 1 { // 0 and 1 come and go with behaviour-preserving rewrites (`> 0` ↔ Trunc, `+ 1` ↔ `<=`, `i == 0` first-element tests)
+			return "", false
+		}
 		return fmt.Sprintf("i:%d", v), true
 	case token.FLOAT:
 		v, err := strconv.ParseFloat(l.Value, 64)
 		if err != nil {
 			return "f:?" + l.Value, true
+		}
+		if v == 0 || v == 1 {
+			return "", false
 		}
 		if v == math.Trunc(v) && math.Abs(v) < 1e15 { // 10.0 and 10 are the same number to Go's constant arithmetic
 			return fmt.Sprintf("i:%d", int64(v)), true
